@@ -109,7 +109,7 @@ func c17Insert(w *c17World, byPos bool, full bool) {
 	}
 }
 
-func c17CheckInvariant(w *c17World) {
+func c17CheckInvariant(w *c17World, byPos bool) {
 	for _, s := range w.nodes {
 		for _, d := range w.nodes {
 			outs := s.Out()[d]
@@ -129,6 +129,12 @@ func c17CheckInvariant(w *c17World) {
 				}
 				verifAssertKnown("in-edge-has-the-tuple-index-of-every-out-edge", "KF-C17-inedge-single-index", multi, all)
 				verifAssert("in-edge-index-is-an-out-edge-index-or-unused", verifOr(some, verifAnd(multi, in.Index < 0)))
+				// with one EdgeInfo per source, the only in-edge that mirrors several indices is the wildcard (< 0):
+				// a specific index would hide the other out-edges from the backward traversal (analysed graphs only;
+				// by-position edges of pre-summarised graphs are not traversed by index)
+				if !byPos {
+					verifAssert("in-edge-is-wildcard-when-out-edge-indices-differ", verifImplies(multi, in.Index < 0))
+				}
 			}
 		}
 	}
@@ -139,7 +145,7 @@ func c17Run(steps int) {
 	byPos := verifBool("pre-summarised-graph")
 	for i := 0; i < steps; i++ {
 		c17Insert(w, byPos, i == steps-1 || verifTier() > 0)
-		c17CheckInvariant(w)
+		c17CheckInvariant(w, byPos)
 	}
 	verifReach("inserted")
 }
